@@ -43,6 +43,7 @@ func New() *Interp {
 	in.Cur = lp
 	installOps(in, lp)
 	installBuiltins(in, lp)
+	installBuiltinsExt(in, lp) // builtins_ext.go
 	lp.Binds["true"] = Sym("true")
 	lp.Binds["false"] = Sym("false")
 	lp.Exports = append(lp.Exports, "true", "false")
